@@ -16,6 +16,10 @@ namespace Nitime.AR
 noncomputable def gridOmega (whole : Bool) (k n : ℕ) : ℝ :=
   (k : ℝ) * ((if whole then 2 * Real.pi else Real.pi) / (n : ℝ))
 
+/-- the grid with the `include_nyquist` option (mirrors `CF.gridWI`) -/
+noncomputable def gridOmegaI (incl whole : Bool) (k n : ℕ) : ℝ :=
+  if incl && !whole then gridOmega false k (n - 1) else gridOmega whole k n
+
 noncomputable instance instScalarComplex : Scalar ℂ where
   add := (· + ·)
   mul := (· * ·)
@@ -45,6 +49,11 @@ open ComplexConjugate
 @[simp] lemma sc_sqrtRe (a : ℂ) : Scalar.sqrtRe a = ((Real.sqrt a.re : ℝ) : ℂ) := rfl
 lemma sc_phasor (w : Bool) (k n : ℕ) :
     (Scalar.phasor w k n : ℂ) = Complex.exp (-(Complex.I * (gridOmega w k n : ℂ))) := rfl
+
+lemma gridPhasor_eq (incl w : Bool) (k n : ℕ) :
+    (gridPhasor incl w k n : ℂ) = Complex.exp (-(Complex.I * (gridOmegaI incl w k n : ℂ))) := by
+  unfold gridPhasor gridOmegaI
+  split <;> rfl
 
 /-- the model's left fold is the `Finset` sum -/
 theorem sumRange_eq (n : ℕ) (f : ℕ → ℂ) : sumRange n f = ∑ i ∈ range n, f i := by
